@@ -183,6 +183,19 @@ def check_module(ctx, source: str, funcs, only_func=None, only_args=None, kwargs
         ins.dispose()
 
 
+def holder_of(source: str, lineno, default: str) -> str:
+    """Name of the top-level function whose body contains line `lineno` (the violating node may lie in a callee)."""
+    if not lineno:
+        return default
+    try:
+        for n in ast.parse(source).body:
+            if isinstance(n, ast.FunctionDef) and n.lineno <= lineno <= (n.end_lineno or n.lineno):
+                return n.name
+    except SyntaxError:
+        pass
+    return default
+
+
 def function_source(source: str, name: str) -> str:
     tree = ast.parse(source)
     for n in tree.body:
@@ -269,9 +282,17 @@ def _cross_type_equal(minsrc: str, fname: str, args) -> bool:
             except Exception:  # noqa: BLE001
                 pass
     objs = []
+
+    def flat(o, depth=0):
+        # the tested value may be an element of a container argument (`for e in x: if e == 1`)
+        objs.append(o)
+        if depth < 3 and isinstance(o, (tuple, list, set, frozenset, dict)):
+            for e in (list(o.values()) + list(o) if isinstance(o, dict) else o):
+                flat(e, depth + 1)
+
     for src in args:
         try:
-            objs.append(eval(src, ns))
+            flat(eval(src, ns))
         except Exception:  # noqa: BLE001
             pass
     for o in objs:
@@ -462,11 +483,14 @@ def report(ctx, w, rawkey: str, occurrences: int = 1):
         ctx.note(f"not reproducible in isolation: {rawkey}")
         return
     extra = [hit["witness"]["value"]] if hit.get("witness", {}).get("value") else []
-    key = mechanism_key(minkey, minsrc, w["func"], params, list(w["args"]) + extra, hit.get("witness", {}).get("node"),
+    holder = holder_of(minsrc, hit.get("witness", {}).get("lineno"), w["func"])
+    key = mechanism_key(minkey, minsrc, holder, params, list(w["args"]) + extra, hit.get("witness", {}).get("node"),
                         hit.get("witness", {}).get("lineno"))
     w2 = dict(w)
     w2["source"] = minsrc
     what = hit["what"] + "\n--- minimal program ---\n" + function_source(minsrc, w["func"])
+    if holder != w["func"]:
+        what += "\n--- callee containing the node ---\n" + function_source(minsrc, holder)
     for _ in range(occurrences):
         ctx.violation_counts[key] = ctx.violation_counts.get(key, 0)
     ctx.violation(key, what, w2)
@@ -509,6 +533,14 @@ def _blocks(fn: ast.AST):
                 pass  # match_case nodes are walked too
 
 
+def _owners(tree: ast.Module, fname: str) -> list:
+    """Statement lists of the entry function first, then those of the sibling functions it may call (a violating node
+    can lie in a callee: its statements must be minimised too)."""
+    fns = [n for n in tree.body if isinstance(n, ast.FunctionDef)]
+    fns.sort(key=lambda n: n.name != fname)
+    return [(o, f) for fn in fns for o, f in _blocks(fn)]
+
+
 def _candidates(tree: ast.Module, fname: str):
     """Edits as (description, function applying the edit to a fresh deep copy located by path)."""
     fn = next(n for n in tree.body if isinstance(n, ast.FunctionDef) and n.name == fname)
@@ -517,7 +549,7 @@ def _candidates(tree: ast.Module, fname: str):
     for i, n in enumerate(tree.body):
         if isinstance(n, ast.FunctionDef) and n.name != fname:
             edits.append(("drop-func", ("top", i)))
-    owners = list(_blocks(fn))
+    owners = _owners(tree, fname)
     for oi, (owner, field) in enumerate(owners):
         blk = getattr(owner, field)
         for si, st in enumerate(blk):
@@ -544,13 +576,12 @@ def _apply(source: str, fname: str, edit) -> str:
     if kind == "drop-func":
         del tree.body[path[1]]
         return ast.unparse(tree)
-    fn = next(n for n in tree.body if isinstance(n, ast.FunctionDef) and n.name == fname)
-    owners = list(_blocks(fn))
+    owners = _owners(tree, fname)
     owner, field = owners[path[0]]
     blk = getattr(owner, field)
     st = blk[path[1]]
     if kind == "del":
-        if isinstance(st, ast.Return) and owner is fn:
+        if isinstance(st, ast.Return) and owner in tree.body:
             return source
         del blk[path[1]]
     elif kind == "hoist-body":
